@@ -535,6 +535,8 @@ class SP(Robot):
             #self.IK(top_plate_pos = self.getBottomT() @ tm([0, 0, self._nominal_height, 0, 0, 0]))
             #self.FK(L, protect = True)
             self._fixUpsideDown()
+            #The solver's result has just been replaced: report and record the repaired pose
+            bottom, top = self.getBottomT(), self.getTopT()
         self._current_plate_transform_local = fsr.globalToLocal(bottom, top)
         #self._undoPlateTransform(bottom, top)
 
@@ -1145,17 +1147,21 @@ class SP(Robot):
             self._top_joints_space[2, num] = newTJ[2]
             self.lengths[num] = fsr.distance(
                 self._top_joints_space[:, num], self._bottom_joints_space[:, num])
-        top_true = fsr.mirror(self.getBottomT() @ tm([0, 0, self.bottom_plate_thickness, 0, 0, 0]),
-            self.getTopT() @ tm([0, 0, -self.top_plate_thickness, 0, 0, 0]))
-        top_true[3:6] = self.getTopT()[3:6] * -1
-        self._end_effector_pos_global = top_true @ tm([0, 0, self.top_plate_thickness, 0, 0, 0])
-        top_true = self.getTopT() @ tm([0, 0, -self.top_plate_thickness, 0, 0, 0])
-        res = lambda x : self._lambdaTopPlateReorientation(
-            tm([top_true[0], top_true[1], top_true[2], x[0], x[1], x[2]]))
-        x_init = self.getTopT()[3:6].flatten()
-        solution = sci.optimize.fsolve(res, x_init)
-        top_true[3:6] = solution
-        self._end_effector_pos_global = top_true @ tm([0, 0, self.top_plate_thickness, 0, 0, 0])
+        #The mirror image of the top plate. Reflecting in the base joint plane and then in the
+        #plate's own joint plane (which leaves every joint where it is) is a proper rigid motion,
+        #so the new pose carries the plate's joints exactly onto the mirrored joints above.
+        mirror_plane = self.getBottomT() @ tm([0, 0, self.bottom_plate_thickness, 0, 0, 0])
+        joint_plane_height = self._top_joints_local[2, 0]
+        joint_plane = self.getTopT() @ tm([0, 0, joint_plane_height, 0, 0, 0])
+        normal = mirror_plane.gTM()[0:3, 2]
+        reflection = np.eye(3) - 2 * np.outer(normal, normal)
+        new_joint_plane = np.eye(4)
+        new_joint_plane[0:3, 0:3] = (reflection @ joint_plane.gTM()[0:3, 0:3] @
+            np.diag([1.0, 1.0, -1.0]))
+        new_joint_plane[0:3, 3] = fsr.mirror(mirror_plane, joint_plane)[0:3].flatten()
+        self._end_effector_pos_global = (tm(new_joint_plane) @
+            tm([0, 0, -joint_plane_height, 0, 0, 0]))
+        self._current_plate_transform_local = fsr.globalToLocal(self.getBottomT(), self.getTopT())
 
     def _rescaleLegLengths(self, current_leg_min : float, current_leg_max : float) -> None:
         """
